@@ -6,7 +6,7 @@ from props import C03 as worker
 
 MANIFEST = dict(
     text='Theorems: a supervision pass that does not raise brings the worker list to exactly max(configured size, still-alive workers); a fresh in-range slot index always exists below size (pigeonhole) and is unused; workers are only started by supervision; an exit of a worker owning no unfinished job changes no job. History level (Proofs/PoolSize.v): in every reachable state the workers not being stopped number at most the configured size; a pass over a running pool whose reaped workers all left clean/recycled never fails, restores the size, leaves the limiter and every resolved job untouched; no exited worker is left in the pool list after any pass; slot indices are pairwise distinct in every reachable state. Refuted (known finding): no replacement after close(). Closed system with crashes (Model/PoolCrash.v): the worker list is at the configured size in every reachable state, whatever the schedule of kills, passes and results (C09_crash_pool_size_kept).',
-    note='Trusted: Coq kernel; hand-written model Model/Pool.v validated on every run against the real billiard.pool parent-side code (harness/pool_driver.py: fake processes, fake clock, recorded signals); event-level atomicity; worker side and OS not modelled here (C03 covers the worker loop). Partial: per-worker quota (at most N jobs) is the worker loop (C03); map/imap spurious loss on recycling pools (D3) and close() stopping supervision (D19) are known findings.',
+    note='Trusted: Coq kernel; hand-written model Model/Pool.v validated on every run against the real billiard.pool parent-side code (harness/pool_driver.py: fake processes, fake clock, recorded signals); event-level atomicity; worker side and OS not modelled here (C03 covers the worker loop). Partial: per-worker quota (at most N jobs) is the worker loop (C03); map/imap spurious loss on recycling pools (D3) and close() stopping supervision (D19) are known findings. A supervision pass interleaved inside shrink() (where it waits for the semaphore) is a monitor-only hook case on the real code.',
     technique='Coq proof (invariants by induction over all event histories of an executable pool model) + differential correspondence against the real parent-side code',
     ref='5.9',
 )
